@@ -192,7 +192,7 @@ int main(int argc, char **argv) {
    *     short-read plans, one plan starting with bytes already buffered (@skip) and one with a failing read */
   for (int r = 0; r < nrandom / 16 + 2; r++) {
     if ((r % nshards) != shard) continue;
-    size_t n = 1030 + h_below(r % 5 == 0 ? 6000 : 2400);
+    size_t n = 1030 + h_below(r % 5 == 0 ? 4400 : 2400);
     unsigned char *b = malloc(n + 64);
     size_t i = 0;
     while (i < n) {                               /* mostly well-formed CRLF lines with dots and bare CRs */
